@@ -102,11 +102,7 @@ OuterLoop:
 						setStringVerb(outFormat[start : i+1])
 					}
 					break ArgLoop
-				case 'a', 'A':
-					// Hexadecimal float verbs
-					outFormat[i] += 'x' - 'a'
-					fallthrough
-				case 'e', 'E', 'f', 'F', 'g', 'G':
+				case 'a', 'A', 'e', 'E', 'f', 'F', 'g', 'G':
 					// float verbs
 					if len(args) <= j {
 						return "", errNotEnoughValues
@@ -121,6 +117,12 @@ OuterLoop:
 						// Go spells those +Inf, -Inf and NaN
 						tmpMem += t.RequireBytes(length)
 						arg = pad(formatNonFinite(f, format[i], flags), length, flags.minus)
+						setStringVerb(outFormat[start : i+1])
+					} else if format[i] == 'a' || format[i] == 'A' {
+						// Hexadecimal float verbs: Go has them (as %x and %X)
+						// but writes the exponent differently.
+						tmpMem += t.RequireBytes(length + prec + 24)
+						arg = formatHexFloat(f, format[i], flags, length, prec, foundDot)
 						setStringVerb(outFormat[start : i+1])
 					}
 					break ArgLoop
@@ -352,6 +354,43 @@ func formatNonFinite(x float64, verb byte, flags fmtFlags) string {
 	return s
 }
 
+// formatHexFloat formats the finite float x as C's printf does for the verb a
+// (or A if verb is 'A').
+func formatHexFloat(x float64, verb byte, flags fmtFlags, width, prec int, hasPrec bool) string {
+	if !hasPrec {
+		prec = -1
+	}
+	// That is 0x<mantissa>p<exponent sign><exponent>
+	s := strconv.FormatFloat(math.Abs(x), 'x', prec, 64)
+	p := strings.IndexByte(s, 'p')
+	mantissa, expSign, exp := s[2:p], s[p+1:p+2], s[p+2:]
+	if flags.sharp && !strings.Contains(mantissa, ".") {
+		mantissa += "."
+	}
+	// Go uses at least 2 digits for the exponent, C only as many as needed
+	for len(exp) > 1 && exp[0] == '0' {
+		exp = exp[1:]
+	}
+	var sign string
+	switch {
+	case math.Signbit(x):
+		sign = "-"
+	case flags.plus:
+		sign = "+"
+	case flags.space:
+		sign = " "
+	}
+	s = mantissa + "p" + expSign + exp
+	if n := width - len(sign) - 2 - len(s); n > 0 && flags.zero && !flags.minus {
+		s = strings.Repeat("0", n) + s
+	}
+	s = sign + "0x" + s
+	if verb == 'A' {
+		s = strings.ToUpper(s)
+	}
+	return pad(s, width, flags.minus)
+}
+
 // Quote returns a string representing the value as a valid Lua literal if
 // possible, the boolean returned indicating success or failure.  It requires
 // the memory needed for the literal and returns the amount required.
@@ -397,8 +436,8 @@ func quoteNonString(v rt.Value) (string, bool) {
 			return "(0/0)", true
 		}
 		// Hexadecimal preserves the value exactly and makes sure it reads back
-		// as a float (e.g. 1.0 is written 0x1p+00, not 1).
-		return strconv.FormatFloat(x, 'x', -1, 64), true
+		// as a float (e.g. 1.0 is written 0x1p+0, not 1).
+		return formatHexFloat(x, 'a', fmtFlags{}, 0, 0, false), true
 	case rt.BoolType:
 		return strconv.FormatBool(v.AsBool()), true
 	default:
